@@ -25,6 +25,8 @@ Elems(un) ==
     [] un = "str" -> <<Str(<<97>>), Str(<<66>>), Str(<<98>>)>>
     [] un = "map" -> <<M1(KK, IntV(1)), M1(KK, IntV(2)), M1(JJ, IntV(1)), M1(KK, Nil), M1(KK, Str(<<49>>))>>
     [] un = "mapsz" -> <<M1(KK, IntV(1)), MapV(<< <<JJ, IntV(2)>>, <<KK, IntV(1)>> >>), M1(SZ, IntV(7)), M1(SZ, Nil), MapV(<<>>)>>
+    \* whole numbers as integers and as floats: equal by ==, so one element to uniq (the first occurrence stays)
+    [] un = "numeq" -> <<IntV(1), Flt(1, 1), IntV(0 - 1), Flt(0 - 1, 1), IntV(0 - 2), Flt(1, 2)>>
     [] un = "int" -> <<IntV(3), IntV(1), IntV(2)>>
     [] un = "mix" -> <<Nil, Str(<<97>>), IntV(1), Arr(<<IntV(1)>>), Arr(<<Str(<<49>>)>>)>>
 
@@ -33,6 +35,7 @@ SeqsOfLen(n, m) == IF n = 0 THEN {<<>>} ELSE {<<i>> \o t : i \in 1..m, t \in Seq
 
 Single == {"compact", "reverse", "first", "last", "size", "uniq", "sort", "join", "sort_natural"}
 CallsOf(un) ==
+  IF un = "numeq" THEN [name : {"uniq", "sort", "compact", "reverse"}, arg : {"none"}, then : {"none", "size", "join", "uniq"}] ELSE
   IF un = "mapsz" THEN [name : {"map"}, arg : {"k", "ksz"}, then : {"none", "compact", "join"}] ELSE
   [name : Single, arg : {"none"}, then : {"none"}]
   \cup [name : {"join"}, arg : {"comma"}, then : {"none"}]
@@ -42,7 +45,7 @@ CallsOf(un) ==
   \cup [name : {"sort", "map"}, arg : {"k"}, then : {"none"}]
   \cup [name : {"reverse", "sort", "compact", "uniq"}, arg : {"none"}, then : {"reverse", "compact", "sort", "size", "first", "join"}]
 
-Init == /\ u \in {"num", "str", "map", "int", "mix", "mapsz"}
+Init == /\ u \in {"num", "str", "map", "int", "mix", "mapsz", "numeq"}
         /\ \E n \in 0..N : ix \in SeqsOfLen(n, Len(Elems(u)))
         /\ call \in CallsOf(u)
 Next == UNCHANGED vars
@@ -76,8 +79,8 @@ SortByKeyLackingFirst ==
                                        => Less3(KeyOf(R.v.v[j], KK), KeyOf(R.v.v[i], KK)) # "t"
 ReverseInvolution == (Simple /\ call.name = "reverse" /\ Dec(R)) => F("reverse", R.v, <<>>) = FVal(Arr(arr))
 UniqLaw == (Simple /\ call.name = "uniq" /\ Dec(R)) =>
-              /\ \A i, j \in 1..Len(R.v.v) : i # j => ~Same(R.v.v[i], R.v.v[j])
-              /\ \A i \in 1..Len(arr) : \E j \in 1..Len(R.v.v) : Same(arr[i], R.v.v[j])
+              /\ \A i, j \in 1..Len(R.v.v) : i # j => Eq3(R.v.v[i], R.v.v[j]) # "t"
+              /\ \A i \in 1..Len(arr) : \E j \in 1..Len(R.v.v) : Eq3(arr[i], R.v.v[j]) = "t"
               \* first occurrences, in order: the result is a subsequence of the input
               /\ \E f \in [1..Len(R.v.v) -> 1..Len(arr)] :
                     (\A i, j \in 1..Len(R.v.v) : i < j => f[i] < f[j]) /\ \A i \in 1..Len(R.v.v) : Same(arr[f[i]], R.v.v[i])
